@@ -121,8 +121,19 @@ def check_frees(idx: Index, rep: Report) -> None:
         for g_ in calls_in(f.node):
             if call_attr(g_) == "allocate_values_same_reg" and g_.args and isinstance(g_.args[0], (ast.Tuple, ast.List)):
                 srcs = []
+                # operand fields of the operation class (`lb = operand_def(...)`): members of the group that are operands
+                opfields: set[str] = set()
+                if f.cls is not None:
+                    for ci_ in idx.mro(f.cls):
+                        for nm_, v_ in ci_.class_assigns().items():
+                            if isinstance(v_, ast.Call) and re.fullmatch(r"(var_|opt_)?operand_def", unparse(v_.func).split(".")[-1]):
+                                opfields.add(nm_)
                 for e_ in g_.args[0].elts:
                     src_ = unparse(e_)
+                    if not isinstance(e_, ast.Name):
+                        src_ = resolved_text(cfg, e_, cfg.node_of(g_))
+                        if re.fullmatch(r"self\.(\w+)", src_) and src_.split(".")[1] in opfields:
+                            src_ = src_ + " (operand)"
                     if isinstance(e_, ast.Name):
                         for w_ in walk_local(f.node):
                             if isinstance(w_, ast.For) and any(x is g_ for x in ast.walk(w_)) and isinstance(w_.iter, ast.Call) and unparse(w_.iter.func) == "zip" and isinstance(w_.target, ast.Tuple):
@@ -140,6 +151,8 @@ def check_frees(idx: Index, rep: Report) -> None:
                     for w_ in walk_local(f.node):
                         if isinstance(w_, ast.For) and any(x is c for x in ast.walk(w_)) and unparse(w_.target) == a0.id:
                             src_ = resolved_text(cfg, w_.iter, cfg.node_of(w_))
+                else:
+                    src_ = resolved_text(cfg, a0, cfg.node_of(c))
                 src_ = re.sub(r"^(?:reversed|tuple|list)\((.*)\)$", r"\1", src_)
                 if src_ in shared_with_operand:
                     r.fail(f"{f.fq}:free-shared({src_})", Finding("C19.R1", f.fq, f"free-of-shared-register:{src_}", f"`{unparse(c)}` frees a member of `{src_}`, which allocate_values_same_reg put in the same register as an operand of this operation: the register is handed out again while the operand (e.g. the initial value of a loop-carried variable) is still live above", f"{f.module.relpath}:{c.lineno}"))
